@@ -15,10 +15,13 @@ from fsmc import bases, tissue as T, fsutil, solvecase as SC
 PID = "C18"
 RULE = ("states = (tissue, grid, radius) full product; and histories of assignments on one live frame; "
         "non-trivial = some grid cell has a cell centre within the radius; classes = (tissue, grid, radius, assignment history)")
-BOUND = {"quick": "2 tissues x grid 1..12 x 5 radii; assignment histories to depth 3 over 8 assignments at 2 (grid, radius) points; 5 length units 1e-6..1e6 x 3 grids x 2 radii x 4 assignments",
+BOUND = {"quick": "2 tissues x grid 1..12 x 5 radii; assignment histories to depth 3 over 8 assignments at 2 (grid, radius) points; 5 length units 1e-6..1e6 x 3 grids x 2 radii x 4 assignments; the same tissue with its cells stored in reversed and interleaved order (ids not in storage order) x 5 grids x 3 radii",
          "thorough": "4 tissues x grid 1..12 x 5 radii x 3 assignments; histories to depth 4; 9 length units 1e-8..1e6 on 2 tissues, histories to depth 2"}
 ASSUMPTIONS = ["tolerance 1e-9 relative for linearity / fresh-frame identity (pure arithmetic)"]
-REQUIRED_TAGS = {"all": ["empty_grid_cell", "full_grid_cell", "pure_pressure", "linearity", "history", "principal", "grid12", "small_length_unit", "large_length_unit", "recalculated_with_other_grid"]}
+REQUIRED_TAGS = {"all": ["empty_grid_cell", "full_grid_cell", "pure_pressure", "linearity", "history", "principal", "grid12", "small_length_unit", "large_length_unit", "recalculated_with_other_grid", "cells_not_in_id_order"]}
+
+
+_LAB = [None]      # labelling of the frames built by make_frame (set per evaluated state)
 
 
 def make_frame(base, cells, unit=1.0):
@@ -26,8 +29,15 @@ def make_frame(base, cells, unit=1.0):
     if cells:
         at = T.sub_tissue(at, cells)
     cm = SC.make_cmap(["m", 0.05, 0.02], 0.3, (0, 0), unit, SC.extent_of(bases.get(base)))
+    lab = None
+    if _LAB[0] == "cells_reversed":
+        # cells inserted in the reverse order, with ids that are neither contiguous nor in insertion order
+        lab = {"order": sorted(at["C"], key=int)[::-1], "cids": ["gap", 5, 3]}
+    elif _LAB[0] == "cells_interleaved":
+        cs = sorted(at["C"], key=int)
+        lab = {"order": cs[::2] + cs[1::2]}
     with fsutil.quiet():
-        v, e, c, info = T.realise(at, k=3, cmap=cm)
+        v, e, c, info = T.realise(at, k=3, cmap=cm, lab=lab)
         fr = T.frame_of(v, e, c)
     for n, cc in enumerate(fr.cells.values()):
         cc.gt_pressure = 0.8 + 0.01 * n       # reference pressures as a Surface Evolver parse would leave them
@@ -121,9 +131,12 @@ class Stress:
     def evaluate(self, d):
         base, cells = self.tissues[d["t"]][:2]
         unit = self.tissues[d["t"]][2] if len(self.tissues[d["t"]]) > 2 else 1.0
+        _LAB[0] = self.tissues[d["t"]][3] if len(self.tissues[d["t"]]) > 3 else None
         grid, radius = d["g"], d["r"]
         fr = make_frame(base, cells, unit)
         viol, known, tags = [], [], []
+        if _LAB[0]:
+            tags.append("cells_not_in_id_order")
         if unit != 1.0:
             tags.append("small_length_unit" if unit < 1 else "large_length_unit")
         if len(d["ops"]) > 1:
@@ -251,8 +264,11 @@ def build(tier, seed):
     if tier == "quick":
         return [Stress("grid-x-radius", [["v5x5", None], ["v5x4p%d" % (seed + 1), None]], list(range(1, 13)), [0.5, 1, 2, 4, 6], SPECS, 0),
                 Stress("grid-x-radius-pure-pressure", [["v5x5", None]], [1, 2, 3, 5, 8, 11], [0.5, 2, 6], [["p_uniform", 1.7]], 0),
+                # cells stored in another order than their ids (the tensor is a sum over cells: it must not care)
+                Stress("cell-order", [["v5x5", None, 1.0, "cells_reversed"], ["v5x5", None, 1.0, "cells_interleaved"]], [1, 2, 3, 5, 8], [0.5, 2, 6], SPECS, 0),
                 Stress("length-units", [["v5x5", None, u] for u in (1e-6, 1e-5, 1e-3, 1e3, 1e6)], [1, 3, 6], [0.5, 2], UNIT_SPECS, 1),
                 Stress("assignment-histories", [["v5x4", None]], [3], [1.0, 0.4], SPECS, 2)]
     return [Stress("grid-x-radius", [["v5x5", None], ["v6x5", None], ["v6x6", None], ["v5x4p%d" % (seed + 1), None]], list(range(1, 13)), [0.5, 1, 2, 4, 6], SPECS, 1),
             Stress("length-units", [[b, None, u] for b in ("v5x5", "v6x5") for u in (1e-8, 1e-6, 1e-5, 1e-4, 1e-3, 1e-2, 1e2, 1e3, 1e6)], [1, 2, 3, 6, 9], [0.5, 1, 2, 6], UNIT_SPECS, 2),
+            Stress("cell-order", [[b, None, 1.0, l] for b in ("v5x5", "v6x5") for l in ("cells_reversed", "cells_interleaved")], list(range(1, 13)), [0.5, 1, 2, 6], SPECS, 1),
             Stress("assignment-histories", [["v5x4", None], ["v5x5", None]], [3, 5], [1.0, 0.4], SPECS, 3)]
